@@ -145,8 +145,9 @@ class Machine:
         if n == self.d:
             act = o["mode"] % 5
             val = o["val"]
-            if o["sel"][3] % 4 == 3:
-                # the operand is a whole element taken out of a fiber by position (z_ref += a[0])
+            if o["sel"][3] % 4 == 3 and act in (2, 3):
+                # the operand is a whole element taken out of a fiber by position (z_ref += a[0]);
+                # (assignment documents "Payload or scalar" operands only)
                 val = Fiber([1], [o["val"]])[0]
             if act == 1:
                 ref <<= val
